@@ -10,7 +10,7 @@ import (
 
 const nodePkg = "client/services/node"
 
-var nodeEvents = append(append([]string{}, fsmEvents...), "signature_reconstructed", "signature_reconstruction_failed")
+var nodeEvents = append(append([]string{}, fsmEvents...), "signature_reconstructed", "signature_reconstruction_failed", "reinit_dkg")
 
 // same-request-type event pairs (payload produced for a -> posted as b)
 var sameTypePairs = [][2]string{
@@ -84,6 +84,16 @@ func nodeMessageJobs(cr *CheckRun, reps []string) []Job {
 		}
 		for _, p := range sameTypePairs {
 			jobs = append(jobs, mk(a, p[1], p[0]))
+		}
+		// the reinitialisation message carrying one inner message of each contribution event
+		for _, ev := range fsmEvents {
+			if strings.Contains(ev, "confirm") || strings.Contains(ev, "partial_sign") || strings.Contains(ev, "decline") {
+				j := mk(a, "reinit_dkg", "")
+				j.Tag += " inner=" + ev
+				j.Case += " inner=" + ev
+				j.Params["inner"] = ev
+				jobs = append(jobs, j)
+			}
 		}
 
 	}
@@ -166,9 +176,11 @@ func init() {
 		cr.explanation = "No Go run-time panic on any feasible path of ProcessMessage for any event, any decoded request value, any sender, in each representative reachable round state (panics are found by the executor as feasible panic paths and replayed natively); a rejected message leaves every durable blob except the offset byte-identical."
 	}}
 	checkDefs["C10"] = &checkDef{level: "other", pkgs: []string{nodePkg}, run: func(cr *CheckRun) {
-		cr.owner = func(l string) bool { return hasPrefixAny(l, "sender-is-participant", "bound-to-round-and-event") }
+		cr.owner = func(l string) bool {
+			return hasPrefixAny(l, "sender-is-participant", "bound-to-round-and-event", "reinit-leaves-live-rounds-untouched")
+		}
 		runNodeMessage(cr)
-		cr.explanation = "Same harness as C09 with sender and claimed participant independent and genuinely signed payloads: (1) an accepted contribution naming participant P must be sent by P; (2) a genuinely signed payload re-posted under another event name or round id must have no effect."
+		cr.explanation = "Same harness as C09 with sender and claimed participant independent and genuinely signed payloads: (1) an accepted contribution naming participant P must be sent by P; (2) a genuinely signed payload re-posted under another event name or round id must have no effect; (3) the reinitialisation message, which is processed without signature verification, whatever round id its payload names and whatever inner message it carries (one inner message of every contribution event, addressed to a live round or to the new one, arbitrary signature), leaves every existing round's dump and signature store byte-identical."
 	}}
 }
 
@@ -199,7 +211,7 @@ func init() {
 		cr.trusted = append(cr.trusted, "gosx SSA->SMT executor", "z3 4.8.12")
 	}}
 	checkDefs["C08"] = &checkDef{level: "other", pkgs: []string{nodePkg}, run: func(cr *CheckRun) {
-		cr.owner = func(l string) bool { return hasPrefixAny(l, "round-isolated", "clock-free", "maporder-free") }
+		cr.owner = func(l string) bool { return hasPrefixAny(l, "round-isolated", "clock-free", "maporder-free", "interleaved-round-changes-nothing") }
 		reps := nodeCommon(cr)
 		jobs := nodeMessageJobs(cr, reps)
 		// determinism: the same message handled by two nodes with independent clocks / map orders
@@ -211,6 +223,9 @@ func init() {
 				continue
 			}
 			for _, ev := range fsmEvents {
+				jobs = append(jobs, Job{Pkg: nodePkg, Fn: "VF_C08_Interleave", Opts: opts, Tag: "interleave state=" + a + " event=" + ev,
+					Case:   "interleave state=" + absState(a) + " event=" + ev,
+					Params: map[string]string{"abs": a, "event": ev, "norange": "1", "maxn": "2", "tag": fmt.Sprintf("c08_%d", len(jobs))}})
 				for _, perm := range []string{"", "1"} {
 					tag := "clock"
 					if perm == "1" {
@@ -228,7 +243,7 @@ func init() {
 		cr.trans = cr.Pool.Paths
 		cr.bounds["map_iteration_order"] = "canonical order vs. the reversed order of every Go map range executed inside ProcessMessage (all maps reversed at once; for n=2 quorums these are the only two orders of each map; combinations that reverse only some maps are outside)"
 		cr.samples = append(cr.samples, map[string]interface{}{"determinism_jobs": len(jobs), "representative_states": reps})
-		cr.explanation = "Round isolation: in every path of the one-message harness a message carrying one round id leaves the dump and the signature store of every other round byte-identical. Clock freedom: the same genuinely signed message handled by two nodes over identical stores with independent time.Now streams yields the same public projection (phase, statuses, contributions, threshold, polynomial), the same pending operations (id, type, payload), signatures and board output. Map-order freedom: the second node handles the message with every Go map range iterated in reverse order."
+		cr.explanation = "Round isolation: in every path of the one-message harness a message carrying one round id leaves the dump and the signature store of every other round byte-identical. Clock freedom: the same genuinely signed message handled by two nodes over identical stores with independent time.Now streams yields the same public projection (phase, statuses, contributions, threshold, polynomial), the same pending operations (id, type, payload), signatures and board output. Map-order freedom: the second node handles the message with every Go map range iterated in reverse order. Interleaving: a node whose shared stores (operation pool, answered-operation tombstones, dump map, signature store) hold what another round left behind, with arbitrary operation payloads and types built by the real NewOperation/PutOperation/DeleteOperation, handles the message exactly like a node that has seen only this round, and leaves the other round's leftovers untouched (md5/hex/base64 modelled as injective functions: hash collisions are outside)."
 	}}
 }
 
@@ -350,12 +365,17 @@ func init() {
 func signJobs(cr *CheckRun) []Job {
 	opts := defaultOpts()
 	var jobs []Job
+	symids := ""
 	add := func(t, ntasks, o1, o2 int) {
+		tag := fmt.Sprintf("n=3 t=%d tasks=%d order=%d order2=%d", t, ntasks, o1, o2)
+		if symids != "" {
+			tag += " symbolic-ids"
+		}
 		jobs = append(jobs, Job{Pkg: nodePkg, Fn: "VF_NodeSign", Opts: opts,
-			Tag:  fmt.Sprintf("n=3 t=%d tasks=%d order=%d order2=%d", t, ntasks, o1, o2),
+			Tag:  tag,
 			Case: fmt.Sprintf("t=%d", t),
 			Params: map[string]string{"t": fmt.Sprint(t), "ntasks": fmt.Sprint(ntasks), "order": fmt.Sprint(o1), "order2": fmt.Sprint(o2),
-				"blob_axioms": "1", "blob_distinct": "1", "tag": fmt.Sprintf("sign_%d", len(jobs))}})
+				"blob_axioms": "1", "blob_distinct": "1", "symids": symids, "tag": fmt.Sprintf("sign_%d", len(jobs))}})
 	}
 	if cr.Tier == "thorough" {
 		for o1 := 0; o1 < 6; o1++ {
@@ -373,10 +393,19 @@ func signJobs(cr *CheckRun) []Job {
 		add(3, 1, 5, 0)
 		add(2, 2, 2, 4)
 	}
-	cr.bounds["signing_scenario"] = "n=3; t=2 (two batches; the slow participant of batch 1 answers while batch 2 is collected) and t=3; 1..2 explicit messages per batch with 2 symbolic payload bytes; arrival orders: quick 6 first-batch orders x 1 second-batch order each, thorough all 36 pairs; shares symbolic (index, value) with the validity predicate assumed for honest signers"
+	// message identifiers as arbitrary pairwise distinct strings (1..3 bytes) listed in any order
+	symids = "1"
+	add(3, 2, 0, 0)
+	add(2, 2, 2, 4)
+	if cr.Tier == "thorough" {
+		add(3, 3, 3, 0)
+		add(2, 2, 5, 1)
+	}
+	symids = ""
+	cr.bounds["signing_scenario"] = "n=3; t=2 (two batches; the slow participant of batch 1 answers while batch 2 is collected) and t=3; 1..2 explicit messages per batch with 2 symbolic payload bytes, message ids concrete or (symbolic-ids jobs) (first batch) arbitrary distinct strings \"m\"+<any byte> in any listing order; arrival orders: quick 6 first-batch orders x 1 second-batch order each, thorough all 36 pairs; shares symbolic (index, value) with the validity predicate assumed for honest signers"
 	cr.bounds["outside"] = "BLS12-381 arithmetic and Ethereum-verifier agreement (contract: tbls.Recover returns Sig(poly,msg) when t valid shares with distinct indices are given and t >= #commitments); Byzantine partial signatures; n > 3; baked ranges inside batches (C17 covers their payloads)"
 	cr.assume = append(cr.assume,
-		"kyber contracts of engine/intrin_kyber.go (tbls.Recover, point decoding, NewPubPoly)",
+		"kyber contracts of engine/intrin_kyber.go (tbls.Recover, point decoding, NewPubPoly); a share value verifies for at most one message under one key share",
 		"md5/hex/base64 injective; structurally different JSON texts are different byte strings",
 		"ed25519 contract; LevelDB = atomic map; encoding/json = typed structural codec")
 	cr.trusted = append(cr.trusted, "gosx SSA->SMT executor", "z3 4.8.12", "kyber v1.6.0 contracts (DESIGN Appendix D)")
@@ -391,7 +420,12 @@ func runSign(cr *CheckRun) {
 	// translator/contract validation: the same scenario natively, with a real kyber polynomial, real shares, real Recover
 	if len(cr.fails) == 0 {
 		cr.validateNatively(jobs[0], nil, nil)
-		cr.validateNatively(jobs[len(jobs)-1], nil, nil)
+		for i := len(jobs) - 1; i > 0; i-- {
+			if jobs[i].Params["symids"] == "" { // without a model the symbolic identifiers would all be equal
+				cr.validateNatively(jobs[i], nil, nil)
+				break
+			}
+		}
 	}
 }
 
@@ -402,7 +436,11 @@ func init() {
 		cr.explanation = "Hot-node half of C01 at contract level: the real reconstructThresholdSignature/recoverFullSign/broadcastReconstructedSignatures/processSignature/SaveSignatures run from SSA over the kyber contract stubs; for every arrival order of partial signatures and every t-subset, each stored and broadcast signature equals the uninterpreted Sig(poly, proposed payload) with the round's polynomial and threshold - hence is independent of subset and order. Curve arithmetic is outside."
 	}}
 	checkDefs["C03"] = &checkDef{level: "other", pkgs: []string{nodePkg}, run: func(cr *CheckRun) {
-		cr.owner = func(l string) bool { return hasPrefixAny(l, "stored-payload-is-proposed", "proposal-entry-payload-is-proposed", "stored-is-recovered") }
+		cr.owner = func(l string) bool {
+			// an honest share verifies only for the payload it was made for: handing anything else to reconstruction shows
+			// as a rejected honest answer
+			return hasPrefixAny(l, "stored-payload-is-proposed", "proposal-entry-payload-is-proposed", "stored-is-recovered", "honest-answer-accepted")
+		}
 		runSign(cr)
 		cr.explanation = "Hot-node half of C03: the payload bytes handed to reconstruction (observable through Sig(poly, .)), the SrcPayload stored next to the signature and the payload stored at proposal time are byte-identical to the payload in the proposal on the board, for symbolic payloads. The airgapped signer's expansion uses the same TasksToMessages (C18/C17 cover it); the signer itself needs kyber and is outside."
 	}}
